@@ -297,16 +297,13 @@ class MultiThreadRunner(BaseRunner):
                 current_processes = len(self.child_runner_ids)
         else:
             queued_invocations = self.app.broker.count_invocations()
-            if (
-                queued_invocations > current_processes
-                and current_processes < self.max_processes
-            ):
-                to_spawn = min(
-                    queued_invocations - current_processes,
-                    self.max_processes - current_processes,
-                )
-                for _ in range(to_spawn):
-                    self._spawn_thread_runner_process()
+            # never below min_processes (workers that died are replaced even when the
+            # queue is empty), never above max_processes
+            target = min(
+                self.max_processes, max(self.conf.min_processes, queued_invocations)
+            )
+            for _ in range(target - current_processes):
+                self._spawn_thread_runner_process()
 
     def _terminate_idle_processes(self) -> None:
         """Terminate processes that are idle longer than the configured timeout."""
@@ -338,6 +335,8 @@ class MultiThreadRunner(BaseRunner):
 
     def runner_loop_iteration(self) -> None:
         """Execute one iteration of the runner loop."""
+        # forget workers that died, so that they stop counting as capacity and are replaced
+        self._cleanup_dead_processes()
         self._scale_up_processes()
 
     def _waiting_for_results(
